@@ -507,6 +507,27 @@ func init() {
 		return mkValue(types.Bool, tc.And(tc.BVCmp("bvsge", t, tc.BV(32, 0)), tc.BVCmp("bvsle", t, tc.BV(32, 0x10FFFF)), tc.Not(rng(tc, t, 0xD800, 0xDFFF)))), true
 	})
 
+	// unicode.SimpleFold: exact on ASCII and on the two non-ASCII members of
+	// ASCII orbits (U+212A KELVIN SIGN, U+017F LONG S); uninterpreted elsewhere.
+	symFirst("unicode.SimpleFold", func(w *world, _ *frame, _ *ssa.Function, args []value) (value, bool) {
+		r, ok := args[0].(symv)
+		if !ok {
+			return nil, false
+		}
+		tc := w.tc
+		t := r.t
+		c := func(v uint32) *Term { return tc.BV(32, uint64(v)) }
+		uf := tc.App("uf_unicode.SimpleFold", bvSort(32), t)
+		w.ufUsed("unicode.SimpleFold")
+		lowerCase := tc.Ite(tc.Eq(t, c('k')), c(0x212A), tc.Ite(tc.Eq(t, c('s')), c(0x17F), tc.BVBin("bvsub", t, c(32))))
+		res := tc.Ite(rng(tc, t, 'A', 'Z'), tc.BVBin("bvadd", t, c(32)),
+			tc.Ite(rng(tc, t, 'a', 'z'), lowerCase,
+				tc.Ite(tc.BVCmp("bvult", t, c(0x80)), t,
+					tc.Ite(tc.Eq(t, c(0x212A)), c('K'),
+						tc.Ite(tc.Eq(t, c(0x17F)), c('S'), uf)))))
+		return mkValue(types.Int32, res), true
+	})
+
 	// unicode classification: ASCII/Latin-1 exact, the rest uninterpreted
 	letterLow := func(tc *termCtx) func(t *Term) *Term {
 		return func(t *Term) *Term { return tc.Or(rng(tc, t, 'A', 'Z'), rng(tc, t, 'a', 'z')) }
